@@ -8,6 +8,7 @@ from checks.c13 import judge_retry, tlc_run_retry
 MC_EMIT_CFG = "INIT McInit\nNEXT McNext\nCONSTRAINT McEmit\nINVARIANT McLaws\nINVARIANT McPrefix\nCHECK_DEADLOCK FALSE\n"
 MC_CFG = "INIT McInit\nNEXT McNext\nINVARIANT McLaws\nINVARIANT McPrefix\nCHECK_DEADLOCK FALSE\n"
 TOK_CFG = "INIT TokInit\nNEXT TokNext\nCONSTRAINT TokEmit\nINVARIANT TokLaw\nCHECK_DEADLOCK FALSE\n"
+FAM_CFG = "INIT FamInit\nNEXT FamNext\nCONSTRAINT FamEmit\nINVARIANT FamLaw\nCHECK_DEADLOCK FALSE\n"
 GRID_CFG = "INIT GridInit\nNEXT GridNext\nCONSTRAINT GridEmit\nCHECK_DEADLOCK FALSE\n"
 JUDGE_CFG = "INIT JudgeInit\nNEXT JudgeNext\nCHECK_DEADLOCK FALSE\n"
 DRIVER = "checks.c04_driver:driver"
@@ -24,12 +25,17 @@ PUNCT = ["(", ")", "{", "}", "[", "]", ";", ",", ".", ":", "?", "+", "-", "*", "
 OPERANDS = ["a", "b", "1", "0.5", "'s'", "/r/g", "x1"]
 VOCAB = KEYWORDS + PUNCT + OPERANDS
 
+# a program with code point escapes for the prefix corpus: every prefix ends somewhere inside "\u{...}" (valid, beyond 0x10FFFF, huge)
+ESCAPE_PROGRAM = ("var s = \"a\\u{1F600}b\";\nvar t = '\\u{41}\\u{10FFFF}' + \"\\u{0}\";\n"
+                  "var n = s.length + t.length;\nvar bad = function () { return eval(\"'\\\\u{110000}'\"); };\n"
+                  "var big = \"\\u{FFFFFFFFFFFFFFFFFF}\";\nn")
+
 NOLEX = {"o": "none", "line": 0, "col": 0, "steps": 0, "type": "", "where": "", "msg": ""}
 
 
-def rec(i, kind, cls=(), toks=(), lex=None, out=None, lens=(0,), fname="", args=()):
+def rec(i, kind, cls=(), toks=(), lex=None, out=None, lens=(0,), fname="", args=(), vk="", ds=(), lens2=(0,)):
     return {"id": i, "kind": kind, "cls": list(cls), "toks": list(toks), "lex": lex or NOLEX, "out": out or NOLEX,
-            "lens": list(lens), "fname": fname, "args": list(args)}
+            "lens": list(lens), "fname": fname, "args": list(args), "vk": vk, "ds": list(ds), "lens2": list(lens2)}
 
 
 def corpus():
@@ -41,6 +47,7 @@ def corpus():
             out.append((os.path.relpath(f, REPO), fh.read()))
     if len(out) < 10:
         raise Machinery("corpus not found under %s/tests" % REPO)
+    out.append(("(synthetic) code point escapes", ESCAPE_PROGRAM))
     return out
 
 
@@ -74,29 +81,54 @@ def run(rep):
     rng = random.Random(rep.seed)
     stats = {"recs": 0, "ncalls": 0, "discovered": {}}
     maxlen = 4 if quick else 5
+    # the four enumeration / model-checking runs are independent: the quick tier starts them together (wall clock), the thorough
+    # tier runs them one after the other (memory)
+    jobs = {"mc_emit_ABCD": (MC_EMIT_CFG, {"TIER": rep.tier, "MAXLEN": maxlen}, 1700), "toks": (TOK_CFG, {"TIER": rep.tier}, 1200),
+            "fam": (FAM_CFG, {"TIER": rep.tier}, 600), "grid": (GRID_CFG, {"TIER": rep.tier}, 600)}
+    futures = {}
+    if quick:
+        from concurrent.futures import ThreadPoolExecutor
+        pool = ThreadPoolExecutor(len(jobs))
+        for tag, (cfg, env, tmo) in jobs.items():
+            futures[tag] = pool.submit(tlc_run_retry, rep, "C04", cfg, env=env, timeout=tmo, tag=tag)
+        pool.shutdown(wait=False)
+
+    def tlc_job(tag):
+        if tag in futures:
+            return futures[tag].result()
+        cfg, env, tmo = jobs[tag]
+        return tlc_run_retry(rep, "C04", cfg, env=env, timeout=tmo, tag=tag)
     # ---- A. LexerFSM: model checking, and enumeration of the class strings (S->C), one alphabet at a time ----------
     ncls = 0
-    for pf in (["ABC"] if quick else ["A", "B", "C"]):
-        env = {"TIER": rep.tier, "MAXLEN": maxlen}
+    nud = 0
+    for pf in (["ABCD"] if quick else ["A", "B", "C", "D"]):
         if len(pf) == 1:
-            env["PROFILE"] = pf
-        res = tlc_run_retry(rep, "C04", MC_EMIT_CFG, env=env, timeout=1700, tag="mc_emit_" + pf)
+            res = tlc_run_retry(rep, "C04", MC_EMIT_CFG, env={"TIER": rep.tier, "MAXLEN": maxlen, "PROFILE": pf}, timeout=1700, tag="mc_emit_" + pf)
+        else:
+            res = tlc_job("mc_emit_" + pf)
         rep.add_tlc("LexerFSM laws + enumeration, alphabet %s, length <= %d" % (pf, maxlen), res)
         cls_strings = sorted({tuple(r["cls"]) for r in res.records if r.get("kind") == "cls"})
         res.records, res.stdout = None, ""
-        if len(cls_strings) < 13 ** maxlen:
+        if len(cls_strings) < 13 ** maxlen - (12 ** maxlen if pf == "D" else 0):
             raise Machinery("only %d class strings enumerated for alphabet %s" % (len(cls_strings), pf))
         ncls += len(cls_strings)
+        nud += sum(1 for c in cls_strings if "ud" in c)
         # engine + judge in chunks (memory)
         for lo in range(0, len(cls_strings), 150000):
             ecases = []
             for n, cls in enumerate(cls_strings[lo:lo + 150000]):
-                for conc in ((0, 1) if (quick and len(cls) <= 3) else (n % 2,)):
+                if "ud" in cls:                    # four digits of other scripts (two more concretisation tables)
+                    concs = (0, 1, 2, 3) if (quick and len(cls) <= 3) else (n % 4,)
+                else:
+                    concs = (0, 1) if (quick and len(cls) <= 3) else (n % 2,)
+                for conc in concs:
                     ecases.append({"kind": "cls", "cls": list(cls), "conc": conc})
             process(rep, rng, ecases, stats)
         del cls_strings
-    rep.spaces.append({"space": "character-class strings over three 13-class alphabets, length <= %d (TLC-enumerated)" % maxlen,
-                       "cases": ncls, "complete": True})
+    if nud < 13 ** maxlen - 12 ** maxlen:
+        raise Machinery("only %d class strings contain the class ud" % nud)
+    rep.spaces.append({"space": "character-class strings over four 13-class alphabets, length <= %d (TLC-enumerated; of alphabet D "
+                                "those that contain a non-ASCII decimal digit: %d)" % (maxlen, nud), "cases": ncls, "complete": True})
     if not quick:
         # the deep run: length 6 on the comment / string / regex alphabet (no emission)
         r6 = tlc_run_retry(rep, "C04", MC_CFG, env={"TIER": rep.tier, "MAXLEN": 6, "PROFILE": "A"}, timeout=2400, tag="mc_deep")
@@ -104,18 +136,19 @@ def run(rep):
         # longer seeded strings over the same alphabets
         alph = {"A": ["sp", "nl", "g", "1", "q", "Q", "bs", "/", "*", "[", "]", "+", "#"],
                 "B": ["0", "1", "9", "x", "e", "a", "u", ".", "+", "q", "bs", "{", "}"],
-                "C": ["=", "<", ">", "!", "&", "*", "+", "/", "g", "b", "o", "0", "7"]}
+                "C": ["=", "<", ">", "!", "&", "*", "+", "/", "g", "b", "o", "0", "7"],
+                "D": ["ud", "1", "0", ".", "e", "x", "g", "q", "bs", "u", "sp", "+", "/"]}
         ecases = []
         for _ in range(150000):
-            a = alph[rng.choice("ABBC")]
+            a = alph[rng.choice("ABBCD")]
             cls = [rng.choice(a) for _ in range(rng.randrange(6, 13))]
             if "&&=" in "".join(cls):
                 continue
-            ecases.append({"kind": "cls", "cls": cls, "conc": rng.randrange(2)})
+            ecases.append({"kind": "cls", "cls": cls, "conc": rng.randrange(4 if "ud" in cls else 2)})
         rep.spaces.append({"space": "seeded class strings of length 6..12", "cases": len(ecases), "complete": False})
         process(rep, rng, ecases, stats)
     # ---- A2. token sequences over the expression vocabulary: acceptor of JsGrammar (S->C) -----------------------------
-    tres = tlc_run_retry(rep, "C04", TOK_CFG, env={"TIER": rep.tier}, timeout=1200, tag="toks")
+    tres = tlc_job("toks")
     rep.add_tlc("JsGrammar.ParseStmts acceptor laws + enumeration of token sequences", tres)
     seqs = sorted({tuple(r["cls"]) for r in tres.records if r.get("kind") == "toks"})
     tres.records, tres.stdout = None, ""
@@ -126,8 +159,27 @@ def run(rep):
     for lo in range(0, len(seqs), 200000):
         process(rep, rng, [{"kind": "src", "src": " ".join(t), "toks": list(t), "what": "token sequence"} for t in seqs[lo:lo + 200000]], stats)
     del seqs
+    # ---- A3. literal / statement families: long numeric literals, braced escapes, statement head x operand, misplaced jumps --
+    fres = tlc_job("fam")
+    rep.add_tlc("C04.FamCases (long literals, code point escapes, statement heads x operands, jumps x places) + FamLaw", fres)
+    fams = {}
+    for r in fres.records:
+        if r.get("kind") in ("long", "esc", "stmt", "lt"):
+            fams[json.dumps(r, sort_keys=True)] = r
+    fams = [fams[k] for k in sorted(fams)]
+    fres.records, fres.stdout = None, ""
+    nfam = {k: sum(1 for f in fams if f["kind"] == k) for k in ("long", "esc", "stmt", "lt")}
+    if nfam["long"] < 500 or nfam["esc"] < 200 or nfam["stmt"] < 3000 or nfam["lt"] < 80:
+        raise Machinery("families incomplete: %r" % nfam)
+    lens_ = sorted({f["n"] for f in fams if f["kind"] == "long"})
+    rep.spaces.append({"space": "numeric literals of %d..%d digits (13 forms x %d lengths x 2 digits x 5 embeddings, TLC-enumerated)"
+                                % (lens_[0], lens_[-1], len(lens_)), "cases": nfam["long"], "complete": True})
+    rep.spaces.append({"space": "code point escapes \\u{H} (20 values up to 18 F's x 12 carriers, TLC-enumerated)", "cases": nfam["esc"], "complete": True})
+    rep.spaces.append({"space": "statement head x misplaced operand, jump x place (TLC-enumerated)", "cases": nfam["stmt"], "complete": True})
+    rep.spaces.append({"space": "line terminator (LF CR CRLF LS PS) x lexical context (TLC-enumerated)", "cases": nfam["lt"], "complete": True})
+    process(rep, rng, [{"kind": "fam", "fam": f} for f in fams], stats)
     # ---- B. the built-in grid: argument vectors enumerated by TLC, functions discovered at run time -----------------
-    gres = tlc_run_retry(rep, "C04", GRID_CFG, env={"TIER": rep.tier}, timeout=600, tag="grid")
+    gres = tlc_job("grid")
     rep.add_tlc("C04.ArgVectors", gres)
     vecs = sorted({tuple(r["cls"]) for r in gres.records if r.get("kind") == "vec"}, key=lambda v: (len(v), v))
     if len(vecs) < 100:
@@ -161,6 +213,8 @@ def run(rep):
         if rng.random() < 0.3:
             m = mutate(m, rng, small)
         ecases.append({"kind": "src", "src": m, "time_limit": 0.3, "what": "mutation #%d" % k})
+        # the same text with CRLF line endings: a CRLF pair is one line break for the reported position
+        ecases.append({"kind": "src", "src": m.replace("\r\n", "\n").replace("\n", "\r\n"), "time_limit": 0.3, "what": "mutation #%d (CRLF)" % k})
     nsoup = 0
     for a in VOCAB:                                  # all soups of length <= 2, seeded longer ones
         ecases.append({"kind": "src", "src": a, "what": "soup"})
@@ -182,13 +236,15 @@ def run(rep):
                                 % (nfn, len(discovered)), "cases": stats["ncalls"], "complete": True})
     rep.notes["discovered_functions"] = {k: sorted(v) for k, v in sorted(discovered.items())}
     rep.spaces.append({"space": "prefixes of the corpus programs", "cases": npre, "complete": not quick})
-    rep.spaces.append({"space": "seeded truncations / splices / mutations of corpus programs", "cases": nmut, "complete": False})
+    rep.spaces.append({"space": "seeded truncations / splices / mutations of corpus programs, each with LF and with CRLF line endings",
+                       "cases": 2 * nmut, "complete": False})
     rep.spaces.append({"space": "token soup over the token vocabulary (all of length <= 2, seeded 3..5)", "cases": nsoup, "complete": False})
     rep.evaluations = stats["recs"]
     rep.exhaustive = False
     rep.notes["rule"] = ("outcome typing: every evaluation returns a value or raises a member of the JSError family; a JSSyntaxError "
                          "raised by the front end carries a position inside the source (or at its end); lexical errors are reported at "
-                         "the offending token; token streams of the real lexer equal those of LexerFSM")
+                         "the offending token; token streams of the real lexer equal those of LexerFSM; a numeric literal of any length "
+                         "is a number; \\u{H} in a string literal is a string for H <= 0x10FFFF and a front-end JSSyntaxError otherwise")
     rep.assumptions += ["LexerFSM.tla transcribes the ECMA-262 lexical grammar of the supported fragment (strict mode, no Annex B)",
                         "calls that allocate memory proportional to an argument (repeat, Array, ArrayBuffer, typed arrays, constructor) "
                         "are not made with arguments >= 2^31 (CallSupported)"]
@@ -220,6 +276,21 @@ def process(rep, rng, ecases, stats, flush=False):
                 continue
             recs.append(rec(i, "cls", cls=c["cls"], toks=r["toks"], lex=r["lex"], out=r["out"]))
             srcs[i] = "lex/eval " + repr(r["src"])
+        elif c["kind"] == "fam":
+            i = len(recs)
+            f = c["fam"]
+            if f["kind"] == "long":
+                recs.append(rec(i, "long", out=r.get("out", dict(NOLEX, o="hang")), lens=r.get("lens", [0]), fname=f["name"],
+                                args=[f["embed"], f["digit"]], vk=r.get("vk", "")))
+                srcs[i] = "numeric literal %s of %d digits (%s), embedding %s" % (f["name"], f["n"], f["digit"], f["embed"])
+            elif f["kind"] == "lt":
+                recs.append(rec(i, "lt", out=r.get("out", dict(NOLEX, o="hang")), lens=r.get("lens", [0]), lens2=r.get("lens2", [0]),
+                                fname=f["name"], args=[f["digit"]], vk=r.get("vk", "")))
+                srcs[i] = "line terminator %s in context %s: %r" % (f["digit"].upper(), f["name"], f["src"] + "<%s>" % f["digit"].upper() + f["embed"])
+            else:
+                recs.append(rec(i, f["kind"], out=r.get("out", dict(NOLEX, o="hang")), lens=r.get("lens", [0]), fname=f["name"],
+                                vk=r.get("vk", ""), ds=f["ds"]))
+                srcs[i] = "%s %s: %r" % (f["kind"], f["name"], f["src"])
         elif c["kind"] == "src":
             i = len(recs)
             if "toks" in c:
